@@ -2,7 +2,7 @@
 from fractions import Fraction as Fr
 import numpy as np
 from harness import coqio as Q
-from harness.impl import lin_wcs, family_wcs, exc_name
+from harness.impl import poke, lin_wcs, family_wcs, exc_name
 
 CORR = "C20_corr"
 IMPORTS = ["Shape", "M_Reproject"]
@@ -104,6 +104,7 @@ def run(case):
     data = _payload(case).reshape(shape)
     cube = NDCube(data.copy(), wcs=w, unit=u.ct, meta={"origin": "probe", "k": [1, 2]}, mask=np.zeros(shape, dtype=bool))
     cube.global_coords.add("g", "custom:g", 3 * u.s)
+    poke(cube, case["key"])
     t = _target(case, w)
     form = case["form"]
     if form == "wcs":
